@@ -429,3 +429,128 @@ Proof.
 Qed.
 
 End MoveResidue.
+
+(* ====================================================================== set_reference_target *)
+Section SetRefResidue.
+Variable T : tables.
+Variable tab_el tab_en : nametab.
+Variable check_fn : N -> list N -> res bool.
+Variable LATEST : N.
+
+(* the referrer map after Element::set_reference_target has moved / added the element (the function of the code) *)
+Definition setref_origins (cd : option cdata) (new_ref : list N) (h : id) (O : list (list N * list id))
+  : list (list N * list id) :=
+  match cd with
+  | Some (DString old_ref) =>
+    if bytes_eqb old_ref new_ref then O else
+    let o1 := match assoc_get old_ref O with
+              | Some l =>
+                match index_of (N.eqb h) l with
+                | Some k => let l' := swap_remove_at l k in
+                            if is_empty l' then assoc_remove old_ref O else assoc_insert old_ref l' O
+                | None => O
+                end
+              | None => O
+              end in
+    match assoc_get new_ref o1 with
+    | Some l => assoc_insert new_ref (l ++ [h]) o1
+    | None => o1 ++ [(new_ref, [h])]
+    end
+  | _ => match assoc_get new_ref O with
+         | Some l => assoc_insert new_ref (l ++ [h]) O
+         | None => O ++ [(new_ref, [h])]
+         end
+  end.
+
+(* the attribute list after DEST was written *)
+Definition dest_written (attr : N) (v : cdata) (attrs : list (N * cdata)) : list (N * cdata) :=
+  if existsb (fun a => fst a =? attr) attrs
+  then map (fun a => if fst a =? attr then (attr, v) else a) attrs
+  else attrs ++ [(attr, v)].
+
+Lemma origins_step cd m new_ref h wa r wb :
+  (match cd with
+   | Some (DString old_ref) => fix_reference_origins m old_ref new_ref h
+   | _ => add_reference_origin m new_ref h
+   end) wa = Val (r, wb) ->
+  w_nodes wb = w_nodes wa /\ w_next wb = w_next wa /\ w_files wb = w_files wa /\
+  (forall j, j <> N.to_nat m -> nth_opt (w_models wb) j = nth_opt (w_models wa) j) /\
+  (forall x, nth_opt (w_models wa) (N.to_nat m) = Some x ->
+     exists x', nth_opt (w_models wb) (N.to_nat m) = Some x' /\ m_root x' = m_root x /\ m_files x' = m_files x /\
+                m_idents x' = m_idents x /\ m_origins x' = setref_origins cd new_ref h (m_origins x)).
+Proof.
+  intros H.
+  assert (Hadd : add_reference_origin m new_ref h wa = Val (r, wb) ->
+    w_nodes wb = w_nodes wa /\ w_next wb = w_next wa /\ w_files wb = w_files wa /\
+    (forall j, j <> N.to_nat m -> nth_opt (w_models wb) j = nth_opt (w_models wa) j) /\
+    (forall x, nth_opt (w_models wa) (N.to_nat m) = Some x ->
+       exists x', nth_opt (w_models wb) (N.to_nat m) = Some x' /\ m_root x' = m_root x /\ m_files x' = m_files x /\
+                  m_idents x' = m_idents x /\
+                  m_origins x' = match assoc_get new_ref (m_origins x) with
+                                 | Some l => assoc_insert new_ref (l ++ [h]) (m_origins x)
+                                 | None => m_origins x ++ [(new_ref, [h])] end)).
+  { intros Ha. unfold add_reference_origin in Ha. apply modify_model_inv in Ha as (x0 & Hx0 & _ & ->).
+    cbn [w_nodes w_next w_files w_models]. repeat split; auto.
+    - intros j Hj. apply list_set_nth_neq. exact Hj.
+    - intros x Hx. assert (x0 = x) by congruence. subst x0. eexists. split; [eapply list_set_nth_eq; exact Hx|]. cbn. auto. }
+  destruct cd as [[| old_ref | |]|]; try (apply Hadd; exact H).
+  unfold fix_reference_origins in H. cbn [setref_origins]. destruct (bytes_eqb old_ref new_ref).
+  - apply wret_inv in H as (_ & ->). repeat split; auto. intros x Hx. exists x. auto.
+  - apply modify_model_inv in H as (x0 & Hx0 & _ & ->). cbn [w_nodes w_next w_files w_models]. repeat split; auto.
+    + intros j Hj. apply list_set_nth_neq. exact Hj.
+    + intros x Hx. assert (x0 = x) by congruence. subst x0. eexists. split; [eapply list_set_nth_eq; exact Hx|]. cbn. auto.
+Qed.
+
+Theorem setref_residue h target w e w' :
+  e_set_reference_target T tab_el tab_en check_fn LATEST h target w = Val (ER e, w') ->
+  w' = w \/
+  (e = IncorrectContentType /\
+   exists nh item m new_ref cd,
+     w_nodes w h = Some nh /\ model_of h w = Val (OK m, w) /\ path_id T target w = Val (OK new_ref, w) /\
+     character_data T nh = Val cd /\
+     (* nodes: only the attribute list of the reference element changed (DEST written); its text did not *)
+     w_nodes w' h = Some (set_attrs nh (dest_written (attr_dest T) (DEnum item) (n_attrs nh))) /\
+     (forall i, i <> h -> w_nodes w' i = w_nodes w i) /\
+     w_next w' = w_next w /\ w_files w' = w_files w /\
+     (* models: only the referrer map of the element's model changed *)
+     (forall j, j <> N.to_nat m -> nth_opt (w_models w') j = nth_opt (w_models w) j) /\
+     (forall x, nth_opt (w_models w) (N.to_nat m) = Some x ->
+        exists x', nth_opt (w_models w') (N.to_nat m) = Some x' /\ m_root x' = m_root x /\ m_files x' = m_files x /\
+                   m_idents x' = m_idents x /\ m_origins x' = setref_origins cd new_ref h (m_origins x))).
+Proof.
+  intros H. unfold e_set_reference_target in H.
+  wer H; [|left; reflexivity]. winvs. wer H; [|left; reflexivity]. winvs.
+  match type of H with (if ?b then _ else _) _ = _ => destruct b end; [winvs; left; reflexivity|].
+  wer H; [|left; reflexivity]. match goal with E : path_id T target w = _ |- _ => rename E into Epath end.
+  wer H; [|left; reflexivity]. winvs. wer H; [|left; reflexivity]. winvs.
+  wer H; [|left; reflexivity].
+  match type of H with (match ?x with _ => _ end) _ = _ => destruct x as [item|] end; [|winvs; left; reflexivity].
+  wer H; [|left; reflexivity]. match goal with E : model_of h w = _ |- _ => rename E into Emod end.
+  wer H; [|left; reflexivity].
+  wer H; [|noer].
+  match goal with E : wtry _ _ = Val _ |- _ => apply wtry_inv in E as ([u|e0] & Et & Q); injection Q as -> end.
+  2:{ left. apply nf_raw_set_attribute in Et. subst. winvs. reflexivity. }
+  right.
+  unfold raw_set_attribute in Et. wok Et. winvs. wok Et. winvs.
+  match type of Et with (match ?x with _ => _ end) _ = _ => destruct x as [[[[q1 q2] q3] q4]|] end; [|discriminate Et].
+  match type of Et with (if ?b then _ else _) _ = _ => destruct b end; [discriminate Et|].
+  wok Et. winvs.
+  match type of Et with (if ?b then _ else _) _ = _ => destruct b end; [|discriminate Et].
+  apply set_node_inv in Et as (_ & ->).
+  same_nodes. match goal with Hx : w_nodes w h = Some ?x |- _ => pose (nh := x); pose proof (Hx : w_nodes w h = Some nh) as Hnh end.
+  wer H; [|noer]. winvs. upd_simpl.
+  wer H; [|noer].
+  match goal with E : wl (character_data T _) _ = Val (OK ?c, _) |- _ => rename c into cd; apply wl_inv in E as (cd0 & Hcd & Q & _); injection Q as <- end.
+  wer H; [|noer].
+  match goal with E : _ ?wa = Val (OK _, ?wb) |- _ => destruct (origins_step _ _ _ _ _ _ _ E) as (O1 & O2 & O3 & O4 & O5) end.
+  apply raw_set_character_data_err in H as (-> & ->). split; [reflexivity|].
+  match goal with E : model_of h w = Val (OK ?mm, _) |- _ => rename mm into m end.
+  match goal with E : path_id T target w = Val (OK ?p, _) |- _ => rename p into new_ref end.
+  exists nh, item, m, new_ref, cd. split; [exact Hnh|]. split; [exact Emod|]. split; [exact Epath|].
+  split; [exact Hcd|].
+  cbn [w_nodes w_next w_files w_models] in *.
+  split; [rewrite O1; apply upd_eq|]. split; [intros i Hi; rewrite O1; apply upd_neq; exact Hi|].
+  split; [exact O2|]. split; [exact O3|]. split; [exact O4|exact O5].
+Qed.
+
+End SetRefResidue.
